@@ -29,7 +29,26 @@ fn probes(site: &TSite, orig: &V, dense: bool) -> Vec<(String, V)> {
         v
     };
     match &site.ty {
-        Ty::Bytes(Some(c)) => lens(*c).into_iter().for_each(|n| out.push((format!("bytes({})", n), V::B(fill_bytes(n, 9))))),
+        Ty::Bytes(Some(c)) => {
+            lens(*c).into_iter().for_each(|n| out.push((format!("bytes({})", n), V::B(fill_bytes(n, 9)))));
+            // contents that are themselves a well-formed CBOR string of exactly the rest
+            for n in [2usize, 24, 25, 26, c.saturating_sub(1), *c, c + 1, c + 2, c + 3] {
+                if n >= 2 {
+                    let mut d = fill_bytes(n, 9);
+                    if n - 1 <= 23 {
+                        d[0] = 0x40 + (n - 1) as u8;
+                    } else if n - 2 <= 255 {
+                        d[0] = 0x58;
+                        d[1] = (n - 2) as u8;
+                    } else {
+                        d[0] = 0x59;
+                        d[1] = ((n - 3) >> 8) as u8;
+                        d[2] = (n - 3) as u8;
+                    }
+                    out.push((format!("cbor-wrapped bytes({})", n), V::B(d)));
+                }
+            }
+        }
         Ty::BytesExact(c) => lens(*c).into_iter().for_each(|n| out.push((format!("bytes({})", n), V::B(fill_bytes(n, 9))))),
         Ty::Bytes(None) => [0usize, 1, 255, 256, 1024, 4000].iter().for_each(|n| out.push((format!("bytes({})", n), V::B(fill_bytes(*n, 9))))),
         Ty::Text(Some(c)) | Ty::TextSkip(c) | Ty::TextTrunc(c) => {
@@ -246,6 +265,55 @@ pub fn run(ctx: &'static Ctx) {
             let v = compare(P, &s.target, &wire);
             if !v.ok {
                 l.fail(ctx, idx, v, || case_json(&s.target, &wire, json!({"seed": s.label, "members": [a.name, b.name], "values": [a.what, b.what]})));
+            }
+        });
+    }
+    // limits do not depend on the SUM of two lengths either: every pair of bounded string members of
+    // each full anchor on a dense two-dimensional length grid
+    {
+        let mut cases: Vec<(usize, treewalk::Path, treewalk::Path, String, String, bool, bool, usize, usize)> = Vec::new();
+        for (si, s) in seeds.iter().enumerate().filter(|(_, s)| s.label.ends_with(":full")) {
+            let sites: Vec<TSite> = treewalk::sites(&s.target.schema(), &s.wire)
+                .into_iter()
+                .filter(|x| !x.path.is_empty() && matches!(x.ty, Ty::Bytes(Some(_)) | Ty::Text(Some(_)) | Ty::TextSkip(_) | Ty::TextTrunc(_)))
+                .collect();
+            let lens = |t: &Ty| -> Vec<usize> {
+                let c = match t {
+                    Ty::Bytes(Some(c)) | Ty::Text(Some(c)) | Ty::TextSkip(c) | Ty::TextTrunc(c) => *c,
+                    _ => unreachable!(),
+                };
+                let dense = if ctx.thorough() { 140 } else { 72 };
+                let mut v: Vec<usize> = (0..=c.min(dense) + 1).collect();
+                v.extend([c.saturating_sub(1), c, c + 1]);
+                v.sort();
+                v.dedup();
+                v
+            };
+            for a in 0..sites.len() {
+                for b in a + 1..sites.len() {
+                    if sites[b].path.starts_with(&sites[a].path) || sites[a].path.starts_with(&sites[b].path) {
+                        continue;
+                    }
+                    let (ta, tb) = (matches!(sites[a].ty, Ty::Bytes(_)), matches!(sites[b].ty, Ty::Bytes(_)));
+                    for la in lens(&sites[a].ty) {
+                        for lb in lens(&sites[b].ty) {
+                            cases.push((si, sites[a].path.clone(), sites[b].path.clone(), sites[a].name.clone(), sites[b].name.clone(), ta, tb, la, lb));
+                        }
+                    }
+                }
+            }
+        }
+        let (pc, sr) = (&cases, &seeds);
+        sweep(ctx, "two bounded string members on a two-dimensional length grid", cases.len() as u64, "every pair of bounded byte-string / text members of each full anchor x every length 0..=min(capacity, 72)+1 (thorough 140) and capacity-1 / capacity / capacity+1 of each", move |idx, l| {
+            let (si, pa, pb, na, nb, ba, bb, la, lb) = &pc[idx as usize];
+            let s = &sr[*si];
+            let val = |bytes: bool, n: usize, salt: usize| if bytes { V::B(fill_bytes(n, salt)) } else { V::t(&fill_text(n, salt)) };
+            let wire = treewalk::replaced(&treewalk::replaced(&s.wire, pa, val(*ba, *la, 3)), pb, val(*bb, *lb, 4));
+            l.nontrivial += 1;
+            l.bump("length pair");
+            let v = compare(P, &s.target, &wire);
+            if !v.ok {
+                l.fail(ctx, idx, v, || case_json(&s.target, &wire, json!({"seed": s.label, "members": [na, nb], "lengths": [la, lb]})));
             }
         });
     }
